@@ -349,14 +349,26 @@ Proof.
     destruct (is_some (v_s_maxage c)); [reflexivity|]. cbn in H. discriminate.
 Qed.
 
+Lemma status_decision_negative cf p e now :
+  status_decision cf p e now = CacheNegatively -> 0 < negative_ttl cf.
+Proof.
+  unfold status_decision. cbv zeta.
+  repeat match goal with
+         | |- (if ?b then _ else _) = CacheNegatively -> _ =>
+             let E := fresh "E" in destruct b eqn:E; [try (intros X; discriminate X)|try (intros X; discriminate X)]
+         end.
+  all: intros _; apply andb_prop in E3 || apply andb_prop in E2; lia.
+Qed.
+
 Lemma reusable_reply_negative cf h q p e now :
   reusable_reply cf h q p e now = CacheNegatively -> 0 < negative_ttl cf.
 Proof.
-  unfold reusable_reply.
+  unfold reusable_reply. cbv zeta.
   repeat match goal with
-         | |- (if ?b then _ else _) = _ -> _ => destruct b eqn:?; try discriminate
-         | |- (let _ := _ in _) = _ -> _ => cbv zeta
-         end; intros _; lia.
+         | |- (if ?b then ReuseNot else _) = CacheNegatively -> _ => destruct b; [intros X; discriminate X|]
+         | |- (if ?b then DoNotCacheButShare else _) = CacheNegatively -> _ => destruct b; [intros X; discriminate X|]
+         end.
+  apply status_decision_negative.
 Qed.
 
 Lemma first_entry_public cf h q p now :
@@ -560,7 +572,7 @@ Proof.
 Qed.
 
 (* ---------- the loop bound of ritems is never the reason the list ends ---------- *)
-Lemma drop_while_length {A} (p : A -> bool) l : (length (drop_while p l) <= length l)%nat.
+Lemma drop_while_length (p : N -> bool) l : (length (drop_while p l) <= length l)%nat.
 Proof. induction l as [|c r IH]; cbn [drop_while length]; [lia|]. destruct (p c); cbn [length]; lia. Qed.
 
 Lemma scan_item_length del : forall n l, (length l <= n)%nat -> forall q acc,
@@ -610,6 +622,7 @@ Proof.
 Qed.
 
 (* ================================================================ text-level statement *)
+Local Open Scope Z_scope.
 (* "sent with directive d": some comma-separated, OWS-trimmed, non-empty element of the combined field value is d or d=... *)
 Definition sent_with (d : bytes) (vals : list bytes) : Prop :=
   exists item, In item (ref_items (join_values vals)) /\ is_directive d item = true.
@@ -672,9 +685,10 @@ Lemma defaults_assumed :
   cfg_refresh_all_ims = false /\ cfg_offline_mode = false /\ cfg_vary_ignore_expire = false /\
   cfg_no_store_miss = true /\ cfg_no_send_hit = true /\ cfg_no_cache_acl = true /\
   (negative_ttl default_config <= 0)%Z /\ use_http_violations = true.
-Proof. repeat split; try reflexivity. vm_compute. discriminate. Qed.
+Proof. repeat split; try reflexivity; vm_compute; discriminate. Qed.
 
 (* ================================================================ non-vacuity *)
+Local Open Scope N_scope.
 Definition ex_q (auth : bool) (ccv : list bytes) : request :=
   {| q_method := [71;69;84]; q_cc_vals := ccv; q_pragma_vals := []; q_has_authorization := auth; q_has_userinfo := false;
      q_ims := false |}.
@@ -682,7 +696,7 @@ Definition ex_p (ccv : list bytes) : reply := wit_p 200 ccv.
 Definition t_max_age_3600 : bytes := [109;97;120;45;97;103;101;61;51;54;48;48].                  (* max-age=3600 *)
 Definition t_max_age_no_store : bytes := t_max_age_3600 ++ [44;32;78;111;45;83;116;111;114;101]. (* max-age=3600, No-Store *)
 Definition t_private_arg : bytes := [80;82;73;86;65;84;69;61;34;120;34].                         (* PRIVATE="x" *)
-Definition run (q : request) (p : reply) : outcome := two_requests default_config plain_hstate q p 1700000000 1.
+Definition run (q : request) (p : reply) : outcome := two_requests default_config plain_hstate q p 1700000000%Z 1%Z.
 
 Lemma ex_plain_hit : run (ex_q false []) (ex_p [t_max_age_3600]) = Hit. Proof. vm_compute. reflexivity. Qed.
 Lemma ex_no_store_miss : run (ex_q false []) (ex_p [t_max_age_no_store]) = Miss. Proof. vm_compute. reflexivity. Qed.
